@@ -27,7 +27,7 @@ TABLE: List[Entry] = [
     ("R-WRITEBACK-MONO", None, "no-emptiness-check", {"C01", "C02", "C08", "C13"}),
     ("R-WRITEBACK-MONO", None, None, {"C01", "C02", "C08", "C04", "C13"}),
     ("R-QUEUE-DRAIN", None, None, {"C01", "C02", "C08", "C13"}),
-    ("R-QUEUE-WRITERS", None, None, {"C01", "C08", "C13"}),
+    ("R-QUEUE-WRITERS", None, None, {"C01", "C02", "C08", "C13"}),
     ("R-OFFSET-ROUNDTRIP", "bound_consistency", None, {"C01", "C02", "C13", "C08"}),
     ("R-ANNOUNCE", "bound_consistency", None, {"C01", "C02", "C08"}),
     ("R-TRIGGER-JOIN", None, None, {"C01", "C02", "C08", "C13"}),
@@ -66,6 +66,8 @@ TABLE: List[Entry] = [
     ("R-PUSH-POP", "cp_init", None, {"C02", "C03", "C09"}),  # a restart of the optimisation goes through cp_init
     ("R-FLAGS-WRITERS", "cp_init", "protocol-writer-silent", {"C01", "C03", "C07", "C08"}),
     ("R-PUSH-POP", None, "copy-flags", {"C02", "C07", "C09"}),
+    ("R-PUSH-POP", None, "push-flags-row", {"C01", "C02", "C07", "C08", "C09"}),
+    ("R-PUSH-POP", None, "push-other-domains", {"C01", "C02", "C08", "C09"}),
     ("R-PUSH-POP", None, "flags-row0", {"C02", "C03", "C07", "C09"}),
     ("R-PUSH-POP", None, "restore-stores", {"C02", "C07", "C09"}),
     ("R-PUSH-POP", None, "lower-levels:not_entailed", {"C02", "C07", "C09"}),
